@@ -9,7 +9,7 @@
    atomically ([step]).  [reachable t0 fund allowed ops] is the state after the history. *)
 From Coq Require Import ZArith List Bool.
 Import ListNotations.
-From Osmo Require Import C06.Model C06.Proofs C06.ProofsAcc C06.ProofsRefs C06.ProofsQuery C06.ProofsCons C06.ProofsTime.
+From Osmo Require Import C06.Model C06.Proofs C06.ProofsAcc C06.ProofsRefs C06.ProofsQuery C06.ProofsCons C06.ProofsTime C06.ProofsEvol.
 Open Scope Z_scope.
 
 (* the lockup module account holds exactly the sum of all live locks' coins *)
@@ -47,6 +47,42 @@ Theorem C06_queries_exact : forall t0 fund allowed ops unl kd acc dn p, 0 < t0 -
 Proof. exact queries_exact. Qed.
 Print Assumptions C06_queries_exact.
 
+(* the invariant behind these statements holds in every reachable state ... *)
+Theorem C06_invariant_reachable : forall t0 fund allowed ops, 0 < t0 -> Forall op_sender_ok ops -> Inv (reachable t0 fund allowed ops).
+Proof. exact reachable_Inv. Qed.
+Print Assumptions C06_invariant_reachable.
+
+(* ... and under it the query functions of store.go (each concatenates the locks of one or two iterators) never fail and return
+   exactly the locks of those iterators *)
+Theorem C06_store_queries : forall s a dn d t, Inv s ->
+  (exists ls, q_account_locked_past_time s a t = Ok ls /\
+     map l_id ls = it_acc_longer_duration s false a (past_duration s t) ++ it_acc_after_time s a t) /\
+  (exists ls, q_account_locked_past_time_denom s a dn t = Ok ls /\
+     map l_id ls = it_acc_longer_duration_denom s false a dn (past_duration s t) ++ it_acc_after_time_denom s a dn t) /\
+  (exists ls, q_account_unlocked_before_time s a t = Ok ls /\
+     map l_id ls = if t <? s_now s then it_acc_before_time s a t
+                   else it_acc_shorter_duration s false a (t - s_now s) ++ it_acc_before_time s a t) /\
+  (exists ls, q_account_locked_longer_duration s a d = Ok ls /\
+     map l_id ls = it_acc_longer_duration s false a d ++ it_acc_longer_duration s true a d) /\
+  (exists ls, q_account_locked_duration s a d = Ok ls /\
+     map l_id ls = it_acc_duration s true a d ++ it_acc_duration s false a d) /\
+  (exists ls, q_account_locked_longer_duration_denom s a dn d = Ok ls /\
+     map l_id ls = it_acc_longer_duration_denom s false a dn d ++ it_acc_longer_duration_denom s true a dn d) /\
+  (exists ls, q_account_locked_duration_not_unlocking_only s a dn d = Ok ls /\
+     map l_id ls = it_acc_duration_denom s false a dn d) /\
+  (exists ls, q_locks_past_time_denom s dn t = Ok ls /\
+     map l_id ls = it_lock_longer_duration_denom s false dn (past_duration s t) ++ it_lock_after_time_denom s dn t) /\
+  (exists ls, q_locks_longer_than_duration_denom s dn d = Ok ls /\
+     map l_id ls = it_lock_longer_duration_denom s false dn d ++ it_lock_longer_duration_denom s true dn d) /\
+  (exists ls, q_period_locks s = Ok ls /\ map l_id ls = it_lock s false ++ it_lock s true) /\
+  (exists ls, q_account_period_locks s a = Ok ls /\ map l_id ls = it_acc s false a ++ it_acc s true a) /\
+  (exists ls, q_account_locked_coins s a = Ok ls /\ map l_id ls = it_acc s false a ++ it_acc_after_time s a (s_now s)) /\
+  (exists ls, q_account_unlockable_coins s a = Ok ls /\ map l_id ls = it_acc_before_time s a (s_now s)) /\
+  (exists ls, q_account_unlocking_coins s a = Ok ls /\ map l_id ls = it_acc_after_time s a (s_now s)) /\
+  (exists ls, q_module_locked_coins s = Ok ls /\ map l_id ls = it_lock s false ++ it_lock_after_time s (s_now s)).
+Proof. exact store_queries_ok. Qed.
+Print Assumptions C06_store_queries.
+
 (* two instances spelled out: AccountLockIteratorLongerDurationDenom and LockIteratorBeforeTime *)
 Theorem C06_account_longer_duration_denom : forall t0 fund allowed ops unl a dn d id, 0 < t0 -> Forall op_sender_ok ops ->
   let s := reachable t0 fund allowed ops in
@@ -83,6 +119,17 @@ Theorem C06_owner_only_and_not_early : forall t0 fund allowed ops o a dn, 0 < t0
   s_bal (fst (step s o)) a dn <= s_bal s a dn + matured_amount s a dn.
 Proof. exact not_early. Qed.
 Print Assumptions C06_owner_only_and_not_early.
+
+(* how a lock record may change in one operation, for every id i (x = record before, x' = record after):
+   released, or: same owner and denomination; duration never shorter; a lock that was unlocking keeps end time and duration;
+   a lock that was not unlocking either still is not, or its end time is now exactly block time + its duration;
+   an id that did not exist is larger than every id used so far and is either not unlocking or ends at block time + duration.
+   So an end time is set once, to (begin-unlock block time + duration), and a matured release ([C06_owner_only_and_not_early])
+   cannot come before it. *)
+Theorem C06_lock_evolution : forall t0 fund allowed ops o, Forall op_sender_ok ops ->
+  let s := reachable t0 fund allowed ops in Evol s (fst (step s o)).
+Proof. exact lock_evolution. Qed.
+Print Assumptions C06_lock_evolution.
 
 (* the exception is guarded: a force-unlock succeeds only for the lock's owner and only if the owner is on the allowed list *)
 Theorem C06_force_only_allowed : forall s a id dn amt s', handle s (OForce a id dn amt) = Ok s' ->
